@@ -1,12 +1,15 @@
 package props
 
 import (
+	"bytes"
 	"fmt"
 	"hash/crc32"
 	"image"
 	"image/color"
 	"image/draw"
+	"image/png"
 	"reflect"
+	"sync/atomic"
 
 	"github.com/boombuler/barcode"
 	"pgregory.net/rapid"
@@ -39,6 +42,8 @@ func modules1D(bc barcode.Barcode) ([]bool, error) {
 
 // accessorsAgree: every way the standard library may read the image must show the pixels At() shows: the optional
 // image.RGBA64Image fast path (RGBA64At), and image/draw, which prefers such fast paths when a source offers them.
+var pngTurn atomic.Int64
+
 func accessorsAgree(bc image.Image) error {
 	b := bc.Bounds()
 	if b.Dx() <= 0 || b.Dy() <= 0 || b.Dx()*b.Dy() > 4000000 {
@@ -62,6 +67,49 @@ func accessorsAgree(bc image.Image) error {
 			for x := b.Min.X; x < b.Max.X; x++ {
 				if _, _, _, a := bc.At(x, y).RGBA(); a != 0xffff {
 					return fmt.Errorf("Opaque() reports true, pixel (%d,%d) = %v has alpha %#x", x, y, bc.At(x, y), a)
+				}
+			}
+		}
+	}
+	if pi, ok := bc.(image.PalettedImage); ok {
+		if pal, ok := bc.ColorModel().(color.Palette); ok {
+			for y := b.Min.Y; y < b.Max.Y; y++ {
+				for x := b.Min.X; x < b.Max.X; x++ {
+					idx := int(pi.ColorIndexAt(x, y))
+					if idx >= len(pal) {
+						return fmt.Errorf("ColorIndexAt(%d,%d) = %d, the palette has %d entries", x, y, idx, len(pal))
+					}
+					r, g, bl, a := bc.At(x, y).RGBA()
+					if pr, pg, pb, pa := pal[idx].RGBA(); pr != r || pg != g || pb != bl || pa != a {
+						return fmt.Errorf("ColorIndexAt(%d,%d) selects palette entry %d = %v, At() says %v: the image's pixel accessors disagree", x, y, idx, pal[idx], bc.At(x, y))
+					}
+				}
+			}
+		}
+	}
+	inModel := b.Dx()*b.Dy() <= 60000 && pngTurn.Add(1)%24 == 0 // (zlib is slow: one image in 24)
+	for y := b.Min.Y; y < b.Max.Y && inModel; y++ {             // image/png converts through ColorModel(): only judged if that changes nothing
+		for x := b.Min.X; x < b.Max.X; x++ {
+			c := bc.At(x, y)
+			r, g, bl, a := c.RGBA()
+			if cr, cg, cb, ca := bc.ColorModel().Convert(c).RGBA(); cr != r || cg != g || cb != bl || ca != a {
+				inModel = false
+				break
+			}
+		}
+	}
+	if inModel { // a real consumer: what image/png writes is what At() shows (within 16 -> 8 bit reduction)
+		var buf bytes.Buffer
+		if err := png.Encode(&buf, bc); err == nil {
+			if back, err := png.Decode(&buf); err == nil {
+				for y := 0; y < b.Dy(); y++ {
+					for x := 0; x < b.Dx(); x++ {
+						wr, wg, wb, wa := color.NRGBA64Model.Convert(bc.At(b.Min.X+x, b.Min.Y+y)).(color.NRGBA64).RGBA()
+						gr, gg, gb, ga := back.At(back.Bounds().Min.X+x, back.Bounds().Min.Y+y).RGBA()
+						if d := func(a, b uint32) bool { return a>>8 > b>>8+1 || b>>8 > a>>8+1 }; d(wa, ga) || (wa > 0x0fff && (d(wr, gr) || d(wg, gg) || d(wb, gb))) {
+							return fmt.Errorf("image/png writes pixel (%d,%d) as %v, At() says %v", x, y, back.At(back.Bounds().Min.X+x, back.Bounds().Min.Y+y), bc.At(b.Min.X+x, b.Min.Y+y))
+						}
+					}
 				}
 			}
 		}
